@@ -237,3 +237,90 @@ Definition agree (oi : option (input Q)) (korth : bool)
       && Bool.eqb (korth_b inp) korth && qsymmetric inp
   | _, _ => false
   end.
+
+(* ------------------------------------------------------------------------------ *)
+(* Vector-source matrices of Tpfa.discretize (added later; separate section so that the
+   definitions above stay as they are).  vsd = parameter ambient_dimension (default sd.dim). *)
+Section TpfaVectorSource.
+  Variable F : Type.
+  Variables (f0 f1 : F) (fadd fsub fmul fdiv : F -> F -> F) (of_Z : Z -> F).
+  Variable I : input F.
+  Variable vsd : nat.
+
+  Definition vnth (v : vec F) (k : nat) : F :=
+    match k with O => vx F v | S O => vy F v | _ => vz F v end.
+
+  (* vals = (t[fi_periodic] * fc_cc * sgn_periodic)[:vsd].ravel("F");
+     rows = tile(fi_periodic, (vsd, 1)).ravel("F"); cols = expand_indices_nd(ci_periodic, vsd) *)
+  Definition vector_source : coo F :=
+    flat_map (fun e => map (fun k =>
+        (tf e, (tc e * vsd + k)%nat,
+         fmul (fmul (t_flux F f0 f1 fadd fsub fmul fdiv of_Z I (tf e)) (vnth (dvec F fsub I e) k))
+              (of_Z (ts e)))) (seq 0 vsd)) (cf I).
+
+  (* vals[:, bnd.is_neu[fi]] = fc_cc[:vsd, bnd.is_neu[fi]] *)
+  Definition bound_pressure_vector_source : coo F :=
+    flat_map (fun e => map (fun k =>
+        (tf e, (tc e * vsd + k)%nat, if is_neu I (tg e) then vnth (dvec F fsub I e) k else f0))
+        (seq 0 vsd)) (cf I).
+End TpfaVectorSource.
+
+(* tie, second part: vector-source matrices, and (on K-orthogonal non-periodic instances)
+   the flux and bound_flux matrices computed by pp.Mpfa, which must equal the verified TPFA
+   model as well.  mp = None: not compared. *)
+Definition agree_more (oi : option (input Q)) (vsd : Z) (vs bpvs : list zq)
+           (mp : option (list zq * list zq)) : bool :=
+  match oi with
+  | None => true
+  | Some inp =>
+      (if dim inp =? 0 then true else
+       same_matrix (vector_source Q 0%Q 1%Q qadd qsub qmul qdiv inject_Z inp (Z.to_nat vsd)) (map of_zq vs)
+       && same_matrix (bound_pressure_vector_source Q 0%Q qsub inp (Z.to_nat vsd)) (map of_zq bpvs))
+      && match mp with
+         | None => true
+         | Some (mf, mb) =>
+             let '(a, b, _, _) := qdiscretize inp in
+             same_matrix a (map of_zq mf) && same_matrix b (map of_zq mb)
+         end
+  end.
+
+(* ------------------------------------------------------------------------------ *)
+(* Scale-free comparison (added for inputs scaled over many orders of magnitude): purely
+   relative, |a - b| <= 1e-9 * |b|; a zero must be matched exactly. *)
+Definition close_rel (a b : Q) : bool :=
+  Qle_bool (Qabs (a - b)) ((1 # 1000000000) * Qabs b).
+Definition covers_rel (A B : qcoo) : bool :=
+  forallb (fun t : nat * nat * Q =>
+             let r := fst (fst t) in let c := snd (fst t) in close_rel (entry A r c) (entry B r c)) A.
+Definition same_matrix_rel (A B : qcoo) : bool := covers_rel A B && covers_rel B A.
+
+(* for MPFA (whose matrices carry rounding noise where TPFA has exact zeros): tolerance
+   relative to the largest entry of the matrix *)
+Definition maxabs (M : qcoo) : Q :=
+  fold_right (fun t acc => let a := Qabs (snd t) in if Qle_bool a acc then acc else a) 0%Q M.
+Definition covers_scaled (tol : Q) (A B : qcoo) : bool :=
+  forallb (fun t : nat * nat * Q =>
+             let r := fst (fst t) in let c := snd (fst t) in
+             Qle_bool (Qabs (entry A r c - entry B r c)) tol) A.
+Definition same_matrix_scaled (A B : qcoo) : bool :=
+  let tol := (1 # 1000000000) * maxabs A in covers_scaled tol A B && covers_scaled tol B A.
+
+Definition agree_rel (oi : option (input Q)) (korth : bool)
+           (expected : option (list zq * list zq * list zq * list zq))
+           (vsd : Z) (vs bpvs : list zq) (mp : option (list zq * list zq)) : bool :=
+  match oi, expected with
+  | None, None => true
+  | Some inp, Some (fl, bf, bpc, bpf) =>
+      let '(a, b, c, d) := qdiscretize inp in
+      same_matrix_rel a (map of_zq fl) && same_matrix_rel b (map of_zq bf)
+      && same_matrix_rel c (map of_zq bpc) && same_matrix_rel d (map of_zq bpf)
+      && Bool.eqb (korth_b inp) korth && qsymmetric inp
+      && (if dim inp =? 0 then true else
+          same_matrix_rel (vector_source Q 0%Q 1%Q qadd qsub qmul qdiv inject_Z inp (Z.to_nat vsd)) (map of_zq vs)
+          && same_matrix_rel (bound_pressure_vector_source Q 0%Q qsub inp (Z.to_nat vsd)) (map of_zq bpvs))
+      && match mp with
+         | None => true
+         | Some (mf, mb) => same_matrix_scaled a (map of_zq mf) && same_matrix_scaled b (map of_zq mb)
+         end
+  | _, _ => false
+  end.
